@@ -108,6 +108,7 @@ Definition op_okb (o : op) : bool :=
   | SetLoopCount n => int64b n
   | SetBackgroundColor c => (0 <=? c) && (c <? 2^32)
   | SetCanvasSize w h => int64b w && int64b h
+  | AssembleCall => true
   end.
 Definition op_ok (o : op) : Prop := op_okb o = true.
 
